@@ -41,6 +41,8 @@ struct Shared {
     tcp_frames: Vec<Vec<(u64, Vec<u8>)>>,
     tcp_done: Vec<Option<String>>,
     handed_at: Vec<Vec<u64>>,
+    /// send instants decided by an actor at run time (pipelined connections)
+    sent_override: HashMap<usize, u64>,
     /// per query: instants at which a complete UDP answer reached a socket erbium had open
     delivered_udp: Vec<Vec<u64>>,
     /// latest instant by which erbium can have had the complete query (TCP: after the last
@@ -407,6 +409,98 @@ async fn client_tcp(k: Arc<Kernel>, plan: Arc<PlanB>, sh: Sh, qi: usize, bytes: 
     }
 }
 
+/// One client connection carrying several queries (RFC 7766).
+async fn client_tcp_group(k: Arc<Kernel>, plan: Arc<PlanB>, sh: Sh, members: Vec<(usize, Vec<u8>)>, mode: u8) {
+    let q0 = &plan.queries[members[0].0];
+    let from = Addr::Inet(SocketAddr::new(q0.src_ip, q0.src_port));
+    let mut s = match k.actor_connect(from, Addr::Inet(q0.dst)) {
+        Ok(s) => s,
+        Err(e) => {
+            let mut g = sh.lock().unwrap();
+            for (qi, _) in &members {
+                g.tcp_done[*qi] = Some(format!("connect refused (errno {})", e));
+            }
+            return;
+        }
+    };
+    let frame = |b: &Vec<u8>| {
+        let mut f = (b.len() as u16).to_be_bytes().to_vec();
+        f.extend_from_slice(b);
+        f
+    };
+    let finish = |sh: &Sh, state: String| {
+        let mut g = sh.lock().unwrap();
+        for (qi, _) in &members {
+            g.tcp_done[*qi] = Some(state.clone());
+        }
+    };
+    let mut next = 0usize;
+    if mode == 0 {
+        let mut all = vec![];
+        for (_, b) in &members {
+            all.extend(frame(b));
+        }
+        let now = k.now_ns();
+        {
+            let mut g = sh.lock().unwrap();
+            for (qi, _) in &members {
+                g.sent_override.insert(*qi, now);
+                g.arrived_hi[*qi] = now + plan.lat_max_us * 1000 + 2_000_000;
+            }
+        }
+        let _ = s.write_all(&all).await;
+        next = members.len();
+    } else {
+        let now = k.now_ns();
+        {
+            let mut g = sh.lock().unwrap();
+            g.sent_override.insert(members[0].0, now);
+            g.arrived_hi[members[0].0] = now + plan.lat_max_us * 1000 + 2_000_000;
+        }
+        let _ = s.write_all(&frame(&members[0].1)).await;
+        next = 1;
+    }
+    let deadline = Instant::now() + Duration::from_secs(900);
+    let mut got = 0usize;
+    loop {
+        let mut lb = [0u8; 2];
+        match tokio::time::timeout_at(deadline, s.read_exact(&mut lb)).await {
+            Err(_) => return finish(&sh, "open".into()),
+            Ok(Err(e)) => return finish(&sh, if e == libc::ECONNABORTED { "eof".into() } else { format!("errno {}", e) }),
+            Ok(Ok(())) => (),
+        }
+        let l = u16::from_be_bytes(lb) as usize;
+        let mut buf = vec![0u8; l];
+        match tokio::time::timeout_at(deadline, s.read_exact(&mut buf)).await {
+            Ok(Ok(())) => {
+                let at = k.now_ns();
+                let id = if buf.len() >= 2 { u16::from_be_bytes([buf[0], buf[1]]) } else { 0 };
+                let who = members.iter().map(|(qi, _)| *qi).find(|qi| plan.queries[*qi].id == id).unwrap_or(members[0].0);
+                sh.lock().unwrap().tcp_frames[who].push((at, buf));
+                got += 1;
+                if mode == 1 && next < members.len() {
+                    tokio::time::sleep(Duration::from_millis(5)).await;
+                    let now = k.now_ns();
+                    {
+                        let mut g = sh.lock().unwrap();
+                        g.sent_override.insert(members[next].0, now);
+                        g.arrived_hi[members[next].0] = now + plan.lat_max_us * 1000 + 2_000_000;
+                    }
+                    if let Err(e) = s.write_all(&frame(&members[next].1)).await {
+                        return finish(&sh, format!("errno {} writing the next query", e));
+                    }
+                    next += 1;
+                }
+                if got >= members.len() {
+                    /* a client that has all its answers closes */
+                    s.shutdown_write();
+                }
+            }
+            _ => return finish(&sh, format!("frame of {} octets announced but not delivered", l)),
+        }
+    }
+}
+
 pub struct ExecB {
     pub trace: bool,
 }
@@ -574,7 +668,14 @@ pub async fn run_async(plan: Arc<PlanB>, opts: &ExecB) -> RunResult {
         }
         let bytes = client_query_bytes(&plan, qi, &cookies);
         sent_at_ns[qi] = kernel.now_ns();
-        if q.tcp {
+        if let Some((gid, mode)) = q.conn {
+            let members: Vec<usize> = (0..nq).filter(|i| matches!(plan.queries[*i].conn, Some((g, _)) if g == gid)).collect();
+            if members[0] == qi {
+                let with_bytes: Vec<(usize, Vec<u8>)> = members.iter().map(|i| (*i, client_query_bytes(&plan, *i, &cookies))).collect();
+                res.probe("C07.several_queries_on_one_client_connection");
+                tokio::spawn(client_tcp_group(kernel.clone(), plan.clone(), sh.clone(), with_bytes, mode));
+            }
+        } else if q.tcp {
             tokio::spawn(client_tcp(kernel.clone(), plan.clone(), sh.clone(), qi, bytes));
         } else {
             let src = SocketAddr::new(q.src_ip, q.src_port);
@@ -597,6 +698,9 @@ pub async fn run_async(plan: Arc<PlanB>, opts: &ExecB) -> RunResult {
         }
     }
     svc.abort();
+    for (qi, t) in sh.lock().unwrap().sent_override.iter() {
+        sent_at_ns[*qi] = *t;
+    }
     evaluate(&plan, &kernel, &sh, &sent_at_ns, end_ns, &mut res);
     erbium_net::sim::install(None);
     kernel.with(|k| {
@@ -777,6 +881,9 @@ fn evaluate(plan: &PlanB, kernel: &Arc<Kernel>, sh: &Sh, sent_at_ns: &[u64], _en
             }
             if !may_be_silent && liveness_judged {
                 let what = match (&expect, q.tcp) {
+                    (_, true) if q.conn.is_some() && plan.queries[..qi].iter().any(|o| o.conn.map(|c| c.0) == q.conn.map(|c| c.0)) => {
+                        format!("C07.no_response.tcp.later_query_on_same_connection.{}", if q.conn.map(|c| c.1) == Some(0) { "pipelined" } else { "sequential" })
+                    }
                     (_, true) => format!("C07.no_response.tcp.{}", g.tcp_done[qi].clone().unwrap_or("pending".into()).split(' ').next().unwrap_or("")),
                     (Expect::Forward(_), false) => "C07.no_response.udp.forwarded".to_string(),
                     (_, false) => "C07.no_response.udp.local".to_string(),
@@ -1105,11 +1212,15 @@ fn evaluate(plan: &PlanB, kernel: &Arc<Kernel>, sh: &Sh, sent_at_ns: &[u64], _en
         if q.quiet_probe {
             nontrivial += 1;
             res.probe("C16.quiet_source_probe");
+            let earlier = plan.queries.iter().filter(|o| o.src_ip == q.src_ip && o.at_ms < q.at_ms).map(|o| o.at_ms).max();
+            if plan.shape == "manyflood" {
+                res.probe(if earlier.is_some() { "C16.flooder_probes_again_after_everybody_was_silent" } else { "C16.fresh_source_probes_while_many_others_flood" });
+            }
             if refused_per_query.get(&qi).copied().unwrap_or(0) == 0 {
-                let earlier = plan.queries.iter().filter(|o| o.src_ip == q.src_ip && o.at_ms < q.at_ms).map(|o| o.at_ms).max();
+                let crowd = plan.shape == "manyflood" && earlier.is_none();
                 res.violate(
                     "C16",
-                    if earlier.is_some() { "C16.quiet_source_got_no_refused" } else { "C16.fresh_source_got_no_refused" },
+                    if crowd { "C16.fresh_source_got_no_refused.while_many_other_sources_flood" } else if earlier.is_some() { "C16.quiet_source_got_no_refused" } else { "C16.fresh_source_got_no_refused" },
                     format!("{} sent a query that is refused by policy at {} ms; its previous query was at {:?} ms; no REFUSED response was sent", q.src_ip, q.at_ms, earlier),
                     qi,
                 );
